@@ -1,6 +1,7 @@
 package simkit
 
 import (
+	"strconv"
 	"fmt"
 	"runtime"
 	"runtime/debug"
@@ -120,10 +121,11 @@ func (e *Env) Settle(d time.Duration) { e.Sleep(d) }
 // Go starts a harness client goroutine under scheduler control.
 func (e *Env) Go(name string, f func()) {
 	e.wg.Add(1)
+	seq := lib.VerifSpawnSeq.Add(1)
 	go func() {
 		defer e.wg.Done()
 		e.S.Name(name)
-		e.S.Gate("client:" + name)
+		e.S.Gate("client:" + name + "#" + strconv.FormatUint(seq, 10))
 		defer func() {
 			if r := recover(); r != nil {
 				e.Infra(fmt.Sprintf("panic in harness client %s: %v\n%s", name, r, debug.Stack()))
@@ -212,6 +214,12 @@ func (e *Env) Fault(kind string) {
 func (e *Env) Logf(format string, args ...any) {
 	line := fmt.Sprintf("%d|", e.S.Steps()) + fmt.Sprintf(format, args...)
 	e.mu.Lock()
+	if e.viol != nil || e.infra != "" {
+		// the run is being torn down (all scheduling points are open, goroutines run
+		// in parallel): what happens now is not part of the recorded history
+		e.mu.Unlock()
+		return
+	}
 	h := e.ehash
 	for i := 0; i < len(line); i++ {
 		h ^= uint64(line[i])
@@ -229,6 +237,7 @@ func (e *Env) Logf(format string, args ...any) {
 func RunBubble(t *testing.T, spec SchedSpec, seed uint64, body func(e *Env)) (res Result) {
 	installHooks()
 	lib.VerifResetPools()
+	lib.VerifSpawnSeq.Store(0)
 	// no garbage collection inside a run: sync.Pool contents (buffer reuse, and with it the
 	// number of reads a frame needs) must not depend on when the collector happens to run
 	gcOld := debug.SetGCPercent(-1)
